@@ -13,7 +13,7 @@ from ..models.record import DT, RecordModel, cast_np, size_formula, to_np
 
 DTS = [1.0, 0.5, 0.25, 2.0, 0.1, 1.3]
 DYADIC = {1.0, 0.5, 0.25, 2.0}
-SHAPES = [[1], [3], [2, 2], [2]]
+SHAPES = [[1], [3], [2, 2], [2], []]
 KINDS = ["f32", "f32", "f64", "i64", "param", "none", "empty0", "uninit"]
 KIND_DTYPE = {"f32": "float32", "f64": "float64", "i64": "int64", "param": "float32",
               "none": None, "empty0": "float32", "uninit": "float32"}
@@ -67,6 +67,8 @@ class RecordWorld(World):
             duration -= dt * rc.choice([0.25, 0.5, 0.6])  # not a multiple of dt
         duration = max(duration, 0.0)
         shape = rc.choice(SHAPES)
+        if prop == "C02" and not shape:
+            shape = [1]       # time-indexed access to scalar observations is not exercised (0-d time tensors)
         kind = rc.choice(KINDS)
         if prop == "C02":
             kind = rc.choice(["f32", "f32", "f64", "param", "empty0", "uninit"])
@@ -134,6 +136,8 @@ class RecordWorld(World):
                 return {"op": "set_inclusive", "v": st["inclusive"]}
             # reconstrain on a record tensor (observation dims)
             nd = len(shape)
+            if nd == 0:
+                return {"op": "peek"}
             dim = ro.randint(-nd, nd - 1)
             kk = ro.random()
             if kk < 0.4:
@@ -182,7 +186,7 @@ class RecordWorld(World):
             return {"op": "latest_del"}
         # refused operations
         k = ro.choice(["bad_write_shape", "bad_push_shape", "bad_offset_shape", "too_long", "bad_align"])
-        bad_shape = shape + [2] if ro.random() < 0.5 else [shape[0] + 1] + shape[1:]
+        bad_shape = shape + [2] if (ro.random() < 0.5 or not shape) else [shape[0] + 1] + shape[1:]
         if k in ("bad_write_shape", "bad_push_shape"):
             return {"op": "refused", "kind": k, "obs": {"v": vals.tensor(bad_shape), "dtype": dtype or "float32"}, "inplace": inplace}
         if k == "bad_offset_shape":
